@@ -14,13 +14,13 @@ open Biscuit
 depend on the later blocks at all: not on their facts, rules, checks, number or order. -/
 theorem state_indep_of_blocks (cfg : EvalCfg) (A : Block) (bs bs' : List Block) (s : AuthState) :
     (authorize cfg ⟨A, bs⟩ s).1 = (authorize cfg ⟨A, bs'⟩ s).1 := by
-  sorry
+  simp only [authorize, authorizeWith_fst_false]
 
 /-- Queries issued after `Authorize` see the authority-level world only. -/
 theorem query_indep_of_blocks (cfg : EvalCfg) (A : Block) (bs bs' : List Block) (s : AuthState)
     (q : DRule) :
     query cfg (authorize cfg ⟨A, bs⟩ s).1 q = query cfg (authorize cfg ⟨A, bs'⟩ s).1 q := by
-  sorry
+  rw [state_indep_of_blocks cfg A bs bs' s]
 
 /-- The result of one block (run error, or its failed checks) is a function of the
 authority-level facts and of that block alone. -/
@@ -41,7 +41,20 @@ theorem verdict_decomposition (cfg : EvalCfg) (tok : Token) (s : AuthState) (w :
     (ap : AuthorityPhase) (h : authorityPhase cfg tok.authority s = (w, .ok ap)) :
     (authorize cfg tok s).2 =
       assemble ap (blockResults cfg s.limits w.facts tok.blocks 1) ap.failed := by
-  sorry
+  have key : ∀ (bs : List Block) (idx : Nat) (acc : List CheckId),
+      finish ap.policy (blockPhase cfg s.limits w.facts bs idx acc) =
+        assemble ap (blockResults cfg s.limits w.facts bs idx) acc := by
+    intro bs
+    induction bs with
+    | nil => intro idx acc; rfl
+    | cons b bs ih =>
+      intro idx acc
+      simp only [blockPhase, blockResults]
+      cases evalBlock cfg s.limits w.facts b idx with
+      | error e => rfl
+      | ok failed => exact ih (idx + 1) (acc ++ failed)
+  rw [authorize, authorizeWith_snd_ok cfg false tok s w ap h]
+  exact key _ _ _
 
 /-- **C03.** Replacing the facts and rules of the block at position `pre.length`
 (keeping its checks) leaves the result of every other block unchanged … -/
@@ -49,7 +62,17 @@ theorem other_blocks_unaffected (cfg : EvalCfg) (lim : Limits) (base : List DFac
     (pre post : List Block) (b b' : Block) (start : Nat) (j : Nat) (hj : j ≠ pre.length) :
     (blockResults cfg lim base (pre ++ b :: post) start)[j]? =
     (blockResults cfg lim base (pre ++ b' :: post) start)[j]? := by
-  sorry
+  induction pre generalizing start j with
+  | nil =>
+    cases j with
+    | zero => exact absurd rfl hj
+    | succ j => simp only [List.nil_append, blockResults, List.getElem?_cons_succ]
+  | cons p pre ih =>
+    cases j with
+    | zero => simp only [List.cons_append, blockResults, List.getElem?_cons_zero]
+    | succ j =>
+      simp only [List.cons_append, blockResults, List.getElem?_cons_succ]
+      exact ih (start + 1) j (fun hj' => hj (by simp only [List.length_cons, hj']))
 
 /-- … and, when neither variant hits a run error, the failed checks that do not belong
 to that block are the same, as is the policy outcome when nothing fails. -/
@@ -59,7 +82,31 @@ theorem failed_ids_other_blocks (cfg : EvalCfg) (A : Block) (pre post : List Blo
     (h' : (authorize cfg ⟨A, pre ++ b' :: post⟩ s).2 = .checksFailed ids') :
     ids.filter (fun i => match i with | .block k _ => k ≠ pre.length + 1 | _ => true) =
     ids'.filter (fun i => match i with | .block k _ => k ≠ pre.length + 1 | _ => true) := by
-  sorry
+  cases hap : authorityPhase cfg A s with
+  | mk w r =>
+    cases r with
+    | error e =>
+      rw [authorize, authorizeWith_snd_err cfg false ⟨A, pre ++ b :: post⟩ s w e hap] at h
+      cases h
+    | ok ap =>
+      rw [authorize, authorizeWith_snd_ok cfg false ⟨A, pre ++ b :: post⟩ s w ap hap] at h
+      rw [authorize, authorizeWith_snd_ok cfg false ⟨A, pre ++ b' :: post⟩ s w ap hap] at h'
+      obtain ⟨a, fb, t, h1, h2, h3, rfl⟩ := blockPhase_mid cfg _ _ _ _ _ _ _ _ (finish_eq_checksFailed _ _ _ h)
+      obtain ⟨a', fb', t', h1', h2', h3', rfl⟩ := blockPhase_mid cfg _ _ _ _ _ _ _ _ (finish_eq_checksFailed _ _ _ h')
+      rw [h1] at h1'
+      rw [h3] at h3'
+      cases h1'
+      cases h3'
+      have hnil : ∀ (l : List CheckId), (∀ x ∈ l, ∃ c, x = CheckId.block (1 + pre.length) c) →
+          l.filter (fun i => match i with | .block k _ => k ≠ pre.length + 1 | _ => true) = [] := by
+        intro l hl
+        rw [List.filter_eq_nil_iff]
+        intro x hx
+        obtain ⟨c, rfl⟩ := hl x hx
+        simp only [ne_eq, decide_not, Bool.not_eq_eq_eq_not, Bool.not_true, decide_eq_false_iff_not, Decidable.not_not]
+        omega
+      simp only [List.filter_append, hnil fb (evalBlock_ok_forall cfg _ _ _ _ _ h2),
+        hnil fb' (evalBlock_ok_forall cfg _ _ _ _ _ h2')]
 
 /-- Renumber the checks of blocks after position `k` down by one (the block at `k` removed). -/
 def dropBlockId (k : Nat) : CheckId → CheckId
@@ -80,14 +127,62 @@ theorem checkfree_block_is_inert (cfg : EvalCfg) (A : Block) (pre post : List Bl
     (hok : ∃ l, evalBlock cfg s.limits w.facts b (pre.length + 1) = .ok l) :
     dropBlockVerdict (pre.length + 1) (authorize cfg ⟨A, pre ++ b :: post⟩ s).2 =
       (authorize cfg ⟨A, pre ++ post⟩ s).2 := by
-  sorry
+  have hf0 : ∀ c, dropBlockId (pre.length + 1) (.block 0 c) = .block 0 c := by
+    intro c; simp [dropBlockId]
+  have hfA : ∀ c, dropBlockId (pre.length + 1) (.authorizer c) = .authorizer c := fun _ => rfl
+  rw [authorize, authorizeWith_snd_ok cfg false ⟨A, pre ++ b :: post⟩ s w ap hap]
+  rw [authorize, authorizeWith_snd_ok cfg false ⟨A, pre ++ post⟩ s w ap hap]
+  simp only
+  rw [blockPhase_append, blockPhase_append]
+  cases hpre : blockPhase cfg s.limits w.facts pre 1 ap.failed with
+  | error e => rfl
+  | ok a =>
+    simp only [blockPhase]
+    obtain ⟨l, hl⟩ := hok
+    have hidx : 1 + pre.length = pre.length + 1 := by omega
+    rw [hidx, hl]
+    have hlnil := evalBlock_nochecks cfg _ _ _ _ hb l hl
+    subst hlnil
+    simp only [List.append_nil]
+    have ha : a.map (dropBlockId (pre.length + 1)) = a := by
+      refine blockPhase_map_id cfg _ _ _ pre 1 ap.failed a hpre ?_
+        (authorityPhase_failed_map cfg A s w ap hap _ hfA hf0)
+      intro j c h1 h2
+      simp only [dropBlockId]
+      rw [if_neg (by omega)]
+    have hshift := blockPhase_shift cfg s.limits w.facts (dropBlockId (pre.length + 1)) post
+      (pre.length + 1) a (by
+        intro j c hj
+        simp only [dropBlockId]
+        rw [if_pos (by omega)]
+        rfl)
+    rw [ha] at hshift
+    rw [← hshift]
+    cases blockPhase cfg s.limits w.facts post (pre.length + 1 + 1) a with
+    | error e => rfl
+    | ok out =>
+      simp only [Except.map, finish]
+      cases out with
+      | nil =>
+        simp only [List.map_nil, List.isEmpty_nil, Bool.not_true, Bool.false_eq_true, if_false]
+        cases ap.policy with
+        | none => rfl
+        | some k => cases k <;> rfl
+      | cons x xs => rfl
 
 /-- **Second sentence.** Every authority-level fact (authority block and authorizer
 facts and what their rules derive) is visible in every block's world. -/
 theorem authority_visible_everywhere (cfg : EvalCfg) (lim : Limits) (base : List DFact) (b : Block)
     (w : World) (h : runWorld cfg lim { facts := insertAll base b.facts, rules := b.rules } = (w, none)) :
     ∀ f ∈ base, f ∈ w.facts := by
-  sorry
+  intro f hf
+  simp only [runWorld, Prod.mk.injEq] at h
+  obtain ⟨hw, he⟩ := h
+  rw [← hw]
+  cases hr : run (evalBool cfg) lim.maxFacts b.rules lim.maxIter (insertAll base b.facts) with
+  | mk W e =>
+    exact run_subset (evalBool cfg) lim.maxFacts b.rules lim.maxIter _ W e hr
+      f ((mem_insertAll _ _ _).2 (Or.inl hf))
 
 /-! Non-vacuity: block 1 derives exactly the fact the policy asks for, and the policy
 still does not match; block 2's check does not see block 1's fact. -/
